@@ -12,6 +12,7 @@
 From Coq Require Import List ZArith NArith QArith String Ascii Bool Lia Permutation.
 From Qryn Require Import lib.Strs model.Sql model.SqlRender model.Logql model.LogqlRegexp model.LogqlPlan model.SqlEval model.LogqlSem
   proofs.SqlEvalProofs proofs.LogqlSemProofs proofs.LogqlRegexpProofs.
+From Qryn Require model.LogqlTemplate proofs.LogqlTemplateProofs.
 Import ListNotations.
 Open Scope string_scope.
 
@@ -63,8 +64,12 @@ Definition vals5 (swap : bool) (vts vfp vlab vstr vval : value) : row :=
   ((if swap then [("fingerprint", vfp); ("timestamp_ns", vts)] else [("timestamp_ns", vts); ("fingerprint", vfp)])
    ++ [("labels", vlab); ("string", vstr); ("value", vval)])%list.
 
-(* a result row: the line x with its current state *)
+(* a result row: the line x with its current state; x_line of the first component is the CURRENT text of the line (a
+   line_format stage rewrites it) *)
 Definition lstate := (sample * pstate)%type.
+Definition set_line (x : sample) (l : string) : sample := {| x_fp := x_fp x; x_ts := x_ts x; x_line := l; x_type := x_type x |}.
+Lemma set_line_id x : set_line x (x_line x) = x.
+Proof. destruct x; reflexivity. Qed.
 Definition st_row (swap : bool) (t : lstate) : row :=
   vals5 swap (VInt (x_ts (fst t))) (VInt (p_fp (snd t))) (VMap (p_labels (snd t))) (VStr (x_line (fst t))) (VNum (inject_Z 0)).
 
@@ -87,7 +92,7 @@ Section BRIDGE2.
   Notation EV := (ev re_match parse_float json_get hash_labels tie (to_sqldb c d)).
   Notation ET := (etab re_match parse_float json_get hash_labels tie (to_sqldb c d)).
   Notation ES := (esel re_match parse_float json_get hash_labels tie (to_sqldb c d)).
-  Notation RUN := (run_stages re_match parse_float json_get hash_labels).
+  Notation RUN := (run_lstages re_match parse_float json_get hash_labels).
 
   (* ================= Part A: a five column select ================= *)
   (* what the bodies of the five columns mean on a source row r, for the line x in state st: every body is evaluated three
@@ -98,7 +103,8 @@ Section BRIDGE2.
               EV e_fp [(b ++ r)%list] = Some (VInt (p_fp (snd t)));
     cs_lab : forall b, alias_env b -> (lookup "string" b = None \/ lookup "string" b = Some (VStr (x_line (fst t)))) ->
               EV e_lab [(b ++ r)%list] = Some (VMap (p_labels (snd t)));
-    cs_str : forall b, alias_env b -> EV e_str [(b ++ r)%list] = Some (VStr (x_line (fst t)));
+    cs_str : forall b, alias_env b -> (lookup "labels" b = None \/ lookup "labels" b = Some (VMap (p_labels (snd t)))) ->
+              EV e_str [(b ++ r)%list] = Some (VStr (x_line (fst t)));
     cs_val : forall b, alias_env b -> EV e_val [(b ++ r)%list] = Some (VNum (inject_Z 0))
   }.
 
@@ -107,13 +113,13 @@ Section BRIDGE2.
   Proof.
     intros [Hts Hfp Hlab Hstr Hval].
     pose proof (Hts [] alias_env_nil) as Hts0. pose proof (Hlab [] alias_env_nil (or_introl eq_refl)) as Hlab0.
-    pose proof (Hstr [] alias_env_nil) as Hstr0. pose proof (Hval [] alias_env_nil) as Hval0.
+    pose proof (Hstr [] alias_env_nil (or_introl eq_refl)) as Hstr0. pose proof (Hval [] alias_env_nil) as Hval0.
     cbn [app] in Hts0, Hlab0, Hstr0, Hval0.
     unfold arow, st_row, vals5, cols5.
     destruct swap; cbn [alias_binds flat_map app String.eqb]; unfold row in *;
       rewrite Hts0, Hlab0, Hstr0, Hval0; destruct (EV e_fp [r]) as [v0|];
       (rewrite Hts by alias_solve); (rewrite Hlab by (alias_solve || (right; reflexivity)));
-      (rewrite Hstr by alias_solve); (rewrite Hval by alias_solve);
+      (rewrite Hstr by (alias_solve || (right; reflexivity))); (rewrite Hval by alias_solve);
       (rewrite Hfp by (alias_solve || reflexivity)); reflexivity.
   Qed.
 
@@ -131,7 +137,7 @@ Section BRIDGE2.
     intros [Hts Hfp Hlab Hstr Hval].
     pose proof (Hts _ (st_row_alias swap t)) as H1. pose proof (Hfp _ (st_row_alias swap t) (st_row_labels swap t)) as H2.
     pose proof (Hlab _ (st_row_alias swap t) (or_intror (st_row_string swap t))) as H3.
-    pose proof (Hstr _ (st_row_alias swap t)) as H4. pose proof (Hval _ (st_row_alias swap t)) as H5.
+    pose proof (Hstr _ (st_row_alias swap t) (or_intror (st_row_labels swap t))) as H4. pose proof (Hval _ (st_row_alias swap t)) as H5.
     unfold cols5. destruct swap; cbn [map_opt app col_body col_name]; rewrite H1, H2, H3, H4, H5; reflexivity.
   Qed.
 
@@ -360,11 +366,12 @@ Section BRIDGE2.
     (fst t, {| p_labels := ls; p_fp := hash_labels ls |}).
   Lemma colsem_json e_ts e_fp e_lab e_str e_val r t params paths :
     colsem e_ts e_fp e_lab e_str e_val r t -> lookup "string" r = Some (VStr (x_line (fst t))) ->
+    (forall b, alias_env b -> EV e_str [(b ++ r)%list] = Some (VStr (x_line (fst t)))) ->
     all_paths params = Some paths ->
     colsem e_ts fp_of_labels (Fn "mapUpdate" [e_lab; sql_json_parser (map pp_label params) paths]) e_str e_val r
            (json_state params paths t).
   Proof.
-    intros [Hts Hfp Hlab Hstr Hval] Hs Hp. constructor; cbn [json_state fst snd p_labels p_fp]; try assumption.
+    intros [Hts Hfp Hlab _ Hval] Hs Hstr Hp. constructor; cbn [json_state fst snd p_labels p_fp]; try assumption; [| |intros b Hb _; now apply Hstr].
     - intros b Hb Hl. rewrite ev_fp_of_labels, (lookup_app_some _ _ _ _ Hl). reflexivity.
     - intros b Hb Hl. rewrite ev_map_update, (Hlab b Hb Hl).
       rewrite (ev_json_map _ _ _ _ (x_line (fst t))).
@@ -410,10 +417,11 @@ Section BRIDGE2.
   Qed.
   Lemma colsem_regexp e_ts e_fp e_lab e_str e_val r t ps :
     colsem e_ts e_fp e_lab e_str e_val r t -> lookup "string" r = Some (VStr (x_line (fst t))) ->
+    (forall b, alias_env b -> EV e_str [(b ++ r)%list] = Some (VStr (x_line (fst t)))) ->
     regexp_oracle ps ->
     colsem e_ts fp_of_labels (Fn "mapUpdate" [e_lab; regex_map (re_names ps) (re_sent ps)]) e_str e_val r (regexp_state ps t).
   Proof.
-    intros [Hts Hfp Hlab Hstr Hval] Hs Ho. constructor; cbn [regexp_state fst snd p_labels p_fp]; try assumption.
+    intros [Hts Hfp Hlab _ Hval] Hs Hstr Ho. constructor; cbn [regexp_state fst snd p_labels p_fp]; try assumption; [| |intros b Hb _; now apply Hstr].
     - intros b Hb Hl. rewrite ev_fp_of_labels, (lookup_app_some _ _ _ _ Hl). reflexivity.
     - intros b Hb Hl. rewrite ev_map_update, (Hlab b Hb Hl).
       destruct (Ho (x_line (fst t))) as [vs [Hg Hlen]].
@@ -431,9 +439,10 @@ Section BRIDGE2.
   Definition drop_state (ps : list (string * option string)) (t : lstate) : lstate := (fst t, drop_stage hash_labels ps (snd t)).
   Lemma colsem_drop e_ts e_fp e_lab e_str e_val r t ps :
     colsem e_ts e_fp e_lab e_str e_val r t ->
+    (forall b, alias_env b -> EV e_str [(b ++ r)%list] = Some (VStr (x_line (fst t)))) ->
     colsem e_ts fp_of_labels (map_drop_filter e_lab ps) e_str e_val r (drop_state ps t).
   Proof.
-    intros [Hts Hfp Hlab Hstr Hval]. constructor; cbn [drop_state drop_stage fst snd p_labels p_fp]; try assumption.
+    intros [Hts Hfp Hlab _ Hval] Hstr. constructor; cbn [drop_state drop_stage fst snd p_labels p_fp]; try assumption; [| |intros b Hb _; now apply Hstr].
     - intros b Hb Hl. rewrite ev_fp_of_labels, (lookup_app_some _ _ _ _ Hl). reflexivity.
     - intros b Hb Hl. unfold map_drop_filter. rewrite ev_map_filter, (Hlab b Hb Hl), drop_specs_clauses. reflexivity.
   Qed.
@@ -507,35 +516,89 @@ Section BRIDGE2.
     EV (Idx (Id "labels") (QRaw name)) (r :: g) = Some (VStr (label_of ls name)).
   Proof. intros H. cbn [ev]. now rewrite H. Qed.
 
-  (* the WHERE of a select is None or one `and` whose conjuncts are two-valued on every kept-or-not line *)
-  Definition wsem (w : option expr) (T : list lstate) (env : lstate -> row) (keep : lstate -> bool) : Prop :=
+  (* ---------- | line_format "tmpl": the `string` body becomes the format() call over the labels column ---------- *)
+  Lemma ev_format f args g :
+    EV (Sep "" [Raw "format("; StrV f; Raw ", "; Sep ", " args; Raw ")"]) g =
+    match map_opt (fun a => match EV a g with Some (VStr v) => Some v | _ => None end) args with
+    | Some vs => option_map VStr (LogqlTemplate.format_eval f vs)
+    | None => None end.
+  Proof. reflexivity. Qed.
+  Lemma label_of_lookup ls n : label_of ls n = LogqlTemplate.lookup ls n.
+  Proof. induction ls as [|[k v] ls IH]; [reflexivity|]. cbn [label_of LogqlTemplate.lookup fst snd]. now rewrite IH. Qed.
+  Lemma ev_tpl_sql ns env g ls : lookup "labels" env = Some (VMap ls) ->
+    EV (LogqlTemplate.tpl_sql ns) (env :: g) = option_map VStr (LogqlTemplate.tpl_sql_value ns ls).
+  Proof.
+    intros Hl. unfold LogqlTemplate.tpl_sql, LogqlTemplate.tpl_sql_value.
+    destruct (LogqlTemplate.tpl_fmt (LogqlTemplate.pieces ns) 0) as [f a]. destruct a as [|a0 a']; [reflexivity|].
+    rewrite ev_format. rewrite (map_opt_map_total LogqlTemplate.label_arg _ (LogqlTemplate.lookup ls)); [reflexivity|].
+    intros n _. unfold LogqlTemplate.label_arg. cbn [ev]. rewrite Hl. now rewrite label_of_lookup.
+  Qed.
+  Definition tpl_out (ns : list LogqlTemplate.tnode) (ls : labels) : string :=
+    match LogqlTemplate.tpl_exec ns ls with Some o => o | None => "" end.
+  Definition tpl_total (ns : list LogqlTemplate.tnode) : Prop := forall ls, LogqlTemplate.tpl_exec ns ls <> None.
+  Definition lfmt_state (ns : list LogqlTemplate.tnode) (t : lstate) : lstate :=
+    (set_line (fst t) (tpl_out ns (p_labels (snd t))), snd t).
+  Lemma colsem_lfmt e_ts e_fp e_lab e_str e_val r t ns :
+    colsem e_ts e_fp e_lab e_str e_val r t -> tpl_total ns ->
+    lookup "labels" r = Some (VMap (p_labels (snd t))) ->
+    (forall b, alias_env b -> EV e_lab [(b ++ r)%list] = Some (VMap (p_labels (snd t)))) ->
+    colsem e_ts e_fp e_lab (LogqlTemplate.tpl_sql ns) e_val r (lfmt_state ns t).
+  Proof.
+    intros [Hts Hfp Hlab _ Hval] Htot Hls Hlf. constructor; cbn [lfmt_state fst snd set_line x_ts x_line]; try assumption.
+    - intros b Hb _. now apply Hlf.
+    - intros b Hb Hl.
+      assert (Hlb : lookup "labels" (b ++ r)%list = Some (VMap (p_labels (snd t)))).
+      { destruct Hl as [Hl|Hl]; [now rewrite lookup_app_none|now apply lookup_app_some]. }
+      etransitivity; [exact (ev_tpl_sql ns (b ++ r)%list [] _ Hlb)|]. unfold tpl_out.
+      destruct (LogqlTemplate.tpl_exec ns (p_labels (snd t))) as [o|] eqn:Eo; [|exfalso; now apply (Htot (p_labels (snd t)))].
+      now rewrite (LogqlTemplateProofs.line_format_sql_value ns _ o Eo).
+  Qed.
+
+  (* the WHERE of a select is None or one `and` whose conjuncts are two-valued on every kept-or-not line, under EVERY alias
+     binding that gives `labels` its current value (the conjuncts read the alias labels and the source column samples.string,
+     never the alias string: a line_format in the same select does not disturb them) *)
+  Definition wsem (w : option expr) (T : list lstate) (src : lstate -> row) (out : lstate -> lstate) (keep : lstate -> bool) : Prop :=
     match w with
     | None => forall t, List.In t T -> keep t = true
     | Some (LOp OAnd cl) =>
-      cl <> [] /\ forall t, List.In t T -> exists bs, Forall2 (fun e b => EV e [env t] = Some (vbool b)) cl bs
-                                               /\ keep t = forallb (fun b => b) bs
+      cl <> [] /\ forall t, List.In t T -> exists bs,
+        (forall b, alias_env b -> lookup "labels" b = Some (VMap (p_labels (snd (out t)))) ->
+           Forall2 (fun e v => EV e [(b ++ src t)%list] = Some (vbool v)) cl bs)
+        /\ keep t = forallb (fun b => b) bs
     | Some _ => False
     end.
-  Lemma wsem_cond w T env keep : wsem w T env keep -> forall t, List.In t T -> cond_ok EV w (env t) = Some (keep t).
+  Lemma wsem_cond w T src out keep swap : wsem w T src out keep ->
+    forall t, List.In t T -> cond_ok EV w (st_row swap (out t) ++ src t)%list = Some (keep t).
   Proof.
     intros H t Ht. destruct w as [e|]; cbn [wsem cond_ok] in *; [|now rewrite (H t Ht)].
     destruct e; try contradiction. destruct fn; try contradiction. destruct H as [Hne H].
     destruct (H t Ht) as [bs [HF ->]]. change (LOp OAnd cl) with (And cl). cbn [cond_ok].
-    rewrite (ev_and_bools re_match parse_float json_get hash_labels tie c d cl bs [env t] Hne HF). apply truthy_vbool.
+    pose proof (HF _ (st_row_alias swap (out t)) (st_row_labels swap (out t))) as HF'.
+    pose proof (ev_and_bools re_match parse_float json_get hash_labels tie c d cl bs _ Hne HF') as HX.
+    unfold row in *. rewrite HX.
+    apply truthy_vbool.
   Qed.
-  Lemma wsem_and w T env keep cond (ok : lstate -> bool) : wsem w T env keep ->
-    (forall t, List.In t T -> EV cond [env t] = Some (vbool (ok t))) ->
-    wsem (and_into w [cond]) T env (fun t => keep t && ok t).
+  Lemma wsem_and w T src out keep cond (ok : lstate -> bool) : wsem w T src out keep ->
+    (forall t, List.In t T -> forall b, alias_env b -> lookup "labels" b = Some (VMap (p_labels (snd (out t)))) ->
+       EV cond [(b ++ src t)%list] = Some (vbool (ok t))) ->
+    wsem (and_into w [cond]) T src out (fun t => keep t && ok t).
   Proof.
     intros H Hc. destruct w as [e|]; cbn [wsem and_into] in *.
     - destruct e; try contradiction. destruct fn; try contradiction. destruct H as [Hne H]. unfold And. split.
       + destruct cl; [congruence|discriminate].
       + intros t Ht. destruct (H t Ht) as [bs [HF Hk]]. exists (bs ++ [ok t])%list. split.
-        * apply Forall2_snoc; [exact HF|now apply Hc].
+        * intros b Hb Hl. apply Forall2_snoc; [now apply HF|now apply Hc].
         * rewrite forallb_app, Hk. cbn [forallb]. now rewrite andb_true_r.
     - unfold And. split; [discriminate|]. intros t Ht. exists [ok t]. split.
-      + constructor; [now apply Hc|constructor].
+      + intros b Hb Hl. constructor; [now apply Hc|constructor].
       + rewrite (H t Ht). cbn [forallb]. now rewrite andb_true_r.
+  Qed.
+  Lemma wsem_labels_ext w T src out out' keep : (forall t, p_labels (snd (out' t)) = p_labels (snd (out t))) ->
+    wsem w T src out keep -> wsem w T src out' keep.
+  Proof.
+    intros E H. destruct w as [e|]; cbn [wsem] in *; [|exact H].
+    destruct e; try contradiction. destruct fn; try contradiction. destruct H as [Hne H]. split; [exact Hne|].
+    intros t Ht. destruct (H t Ht) as [bs [HF Hk]]. exists bs. split; [|exact Hk]. intros b Hb Hl. apply HF; [exact Hb|]. now rewrite <- E.
   Qed.
 
   (* ================= Part C: the reference side - live states of a prefix of the pipeline ================= *)
@@ -544,42 +607,44 @@ Section BRIDGE2.
     in_window c x && type_in c (x_type x) && forallb (matcher_ok re_match (series_labels d (x_fp x))) ms.
   Definition init_state (x : sample) : pstate := {| p_labels := series_labels d (x_fp x); p_fp := x_fp x |}.
   Definition live_of (stages : list stage) (x : sample) : list lstate :=
-    if base_ok x then match RUN stages (x_line x) (init_state x) with Some st => [(x, st)] | None => [] end else [].
+    if base_ok x then match RUN stages (x_line x) (init_state x) with Some (l, st) => [(set_line x l, st)] | None => [] end else [].
   Definition live (stages : list stage) : list lstate := flat_map (live_of stages) (d_samples d).
   Definition mkout2 (t : lstate) : outrow :=
     {| o_fp := p_fp (snd t); o_labels := p_labels (snd t); o_line := x_line (fst t); o_ts := x_ts (fst t) |}.
 
-  Lemma log_rows2_live ppl :
-    log_rows2 re_match parse_float json_get hash_labels {| sel_matchers := ms; sel_pipeline := ppl |} c d = map mkout2 (live ppl).
+  Lemma log_rows3_live ppl :
+    log_rows3 re_match parse_float json_get hash_labels {| sel_matchers := ms; sel_pipeline := ppl |} c d = map mkout2 (live ppl).
   Proof.
-    unfold log_rows2, live. induction (d_samples d) as [|x l IH]; [reflexivity|].
+    unfold log_rows3, live. induction (d_samples d) as [|x l IH]; [reflexivity|].
     cbn [flat_map]. rewrite map_app, IH. f_equal.
-    unfold sample_out, live_of, base_ok, init_state. cbn [sel_matchers sel_pipeline].
+    unfold sample_out3, live_of, base_ok, init_state. cbn [sel_matchers sel_pipeline].
     destruct (in_window c x && type_in c (x_type x) && forallb (matcher_ok re_match (series_labels d (x_fp x))) ms); [|reflexivity].
-    destruct (RUN ppl (x_line x) _); reflexivity.
+    destruct (RUN ppl (x_line x) _) as [[l0 st]|]; reflexivity.
   Qed.
 
   Lemma run_app a : forall b line st,
-    RUN (a ++ b) line st = match RUN a line st with Some st' => RUN b line st' | None => None end.
+    RUN (a ++ b) line st = match RUN a line st with Some (line', st') => RUN b line' st' | None => None end.
   Proof.
     induction a as [|s a IH]; intros b line st; [reflexivity|]. cbn [app].
-    destruct s as [op v rl|f|fn ps|tm| |lb|ps]; cbn [run_stages]; try reflexivity.
+    destruct s as [op v rl|f|fn ps|tm| |lb|ps]; cbn [run_lstages]; try reflexivity.
     - destruct (line_ok re_match line op v); [apply IH|reflexivity].
     - destruct (lf_ok re_match parse_float (p_labels st) f); [apply IH|reflexivity].
     - destruct fn; try reflexivity.
       + destruct (json_stage json_get hash_labels ps line st); [apply IH|reflexivity].
       + destruct (regexp_stage hash_labels ps line st); [apply IH|reflexivity].
+    - destruct (line_format_stage tm st); [apply IH|reflexivity].
     - apply IH.
   Qed.
   Definition step_of (s : stage) (t : lstate) : list lstate :=
-    match RUN [s] (x_line (fst t)) (snd t) with Some st' => [(fst t, st')] | None => [] end.
+    match RUN [s] (x_line (fst t)) (snd t) with Some (l, st') => [(set_line (fst t) l, st')] | None => [] end.
   Lemma live_snoc a s : live (a ++ [s]) = flat_map (step_of s) (live a).
   Proof.
     unfold live. induction (d_samples d) as [|x l IH]; [reflexivity|].
     cbn [flat_map]. rewrite flat_map_app, IH. f_equal.
     unfold live_of. destruct (base_ok x); [|reflexivity]. rewrite run_app.
-    destruct (RUN a (x_line x) (init_state x)) as [st|]; [|reflexivity].
-    cbn [flat_map]. unfold step_of. cbn [fst snd]. now rewrite app_nil_r.
+    destruct (RUN a (x_line x) (init_state x)) as [[l0 st]|]; [|reflexivity].
+    cbn [flat_map]. unfold step_of. cbn [fst snd set_line x_line]. rewrite app_nil_r.
+    destruct (RUN [s] l0 st) as [[l1 st1]|]; reflexivity.
   Qed.
   Lemma flat_map_single {A B} (f : A -> B) l : flat_map (fun a => [f a]) l = map f l.
   Proof. induction l as [|a l IH]; [reflexivity|]. cbn [flat_map map app]. now rewrite IH. Qed.
@@ -590,35 +655,44 @@ Section BRIDGE2.
     live (a ++ [PParser PJson ps]) = map (json_state ps paths) (live a).
   Proof.
     intros Hp. rewrite live_snoc, <- flat_map_single. apply flat_map_ext. intros t.
-    unfold step_of, json_state. cbn [run_stages]. unfold json_stage. rewrite Hp. reflexivity.
+    unfold step_of, json_state. cbn [run_lstages]. unfold json_stage. rewrite Hp. now rewrite set_line_id.
   Qed.
   Lemma live_regexp a ps : regexp_oracle ps ->
     live (a ++ [PParser PRegexp ps]) = map (regexp_state ps) (live a).
   Proof.
     intros Ho. rewrite live_snoc, <- flat_map_single. apply flat_map_ext. intros t.
-    unfold step_of. cbn [run_stages]. rewrite (regexp_stage_state ps t Ho). reflexivity.
+    unfold step_of. cbn [run_lstages]. rewrite (regexp_stage_state ps t Ho). now rewrite set_line_id.
   Qed.
   Lemma live_drop a ps : live (a ++ [PDrop ps]) = map (drop_state ps) (live a).
-  Proof. rewrite live_snoc, <- flat_map_single. apply flat_map_ext. intros t. reflexivity. Qed.
+  Proof.
+    rewrite live_snoc, <- flat_map_single. apply flat_map_ext. intros t. unfold step_of. cbn [run_lstages]. now rewrite set_line_id.
+  Qed.
   Lemma live_label_filter a f :
     live (a ++ [PLabelFilter f]) = filter (fun t => lf_ok re_match parse_float (p_labels (snd t)) f) (live a).
   Proof.
-    rewrite live_snoc, <- flat_map_filter. apply flat_map_ext. intros t. unfold step_of. cbn [run_stages].
-    destruct (lf_ok re_match parse_float (p_labels (snd t)) f); [destruct t|]; reflexivity.
+    rewrite live_snoc, <- flat_map_filter. apply flat_map_ext. intros t. unfold step_of. cbn [run_lstages].
+    destruct (lf_ok re_match parse_float (p_labels (snd t)) f); [rewrite set_line_id; destruct t|]; reflexivity.
   Qed.
   Lemma live_line_filter a op v rl :
     live (a ++ [PLineFilter op v rl]) = filter (fun t => line_ok re_match (x_line (fst t)) op v) (live a).
   Proof.
-    rewrite live_snoc, <- flat_map_filter. apply flat_map_ext. intros t. unfold step_of. cbn [run_stages].
-    destruct (line_ok re_match (x_line (fst t)) op v); [destruct t|]; reflexivity.
+    rewrite live_snoc, <- flat_map_filter. apply flat_map_ext. intros t. unfold step_of. cbn [run_lstages].
+    destruct (line_ok re_match (x_line (fst t)) op v); [rewrite set_line_id; destruct t|]; reflexivity.
+  Qed.
+  Lemma live_lfmt a tm ns : LogqlTemplate.tpl_parse tm = LogqlTemplate.TOk ns -> tpl_total ns ->
+    live (a ++ [PLineFormat tm]) = map (lfmt_state ns) (live a).
+  Proof.
+    intros Hp Htot. rewrite live_snoc, <- flat_map_single. apply flat_map_ext. intros t.
+    unfold step_of, lfmt_state, tpl_out. cbn [run_lstages]. unfold line_format_stage. rewrite Hp.
+    destruct (LogqlTemplate.tpl_exec ns (p_labels (snd t))) as [o|] eqn:Eo; [reflexivity|exfalso; now apply (Htot (p_labels (snd t)))].
   Qed.
 
   (* a prefix of filters only *)
   Lemma run_filters : forall pre line st, forallb stage_supported pre = true ->
-    RUN pre line st = if forallb (stage_ok re_match parse_float (p_labels st) line) pre then Some st else None.
+    RUN pre line st = if forallb (stage_ok re_match parse_float (p_labels st) line) pre then Some (line, st) else None.
   Proof.
     induction pre as [|s pre IH]; intros line st H; [reflexivity|]. cbn [forallb] in H. apply andb_prop in H. destruct H as [Hs Hl].
-    destruct s; try discriminate; cbn [run_stages forallb stage_ok].
+    destruct s; try discriminate; cbn [run_lstages forallb stage_ok].
     - destruct (line_ok re_match line op val); [now apply IH|reflexivity].
     - destruct (lf_ok re_match parse_float (p_labels st) f); [now apply IH|reflexivity].
   Qed.
@@ -630,24 +704,37 @@ Section BRIDGE2.
     cbn [flat_map filter]. rewrite IH. unfold live_of at 1, sample_ok at 2, base_ok. cbn [sel_matchers sel_pipeline].
     rewrite (run_filters pre _ _ H). cbn [init_state p_labels].
     destruct (in_window c x && type_in c (x_type x) && forallb (matcher_ok re_match (series_labels d (x_fp x))) ms); [|reflexivity].
-    cbn [andb]. destruct (forallb (stage_ok re_match parse_float (series_labels d (x_fp x)) (x_line x)) pre); reflexivity.
+    cbn [andb]. destruct (forallb (stage_ok re_match parse_float (series_labels d (x_fp x)) (x_line x)) pre); [now rewrite set_line_id|reflexivity].
   Qed.
 
   (* ================= Part D: the invariant of the open select ================= *)
-  Inductive mode := MFresh | MParsed | MDropped | MFilt.
+  (* MFmt: the string body was replaced by a line_format stage - the source columns no longer hold the current line, the
+     select accepts no further stage (the planners close it: renew_after) *)
+  Inductive mode := MFresh | MParsed | MDropped | MFilt | MFmt.
 
   Definition sinv (sel : select) (done : list stage) (m : mode) (swap : bool) : Prop :=
     exists e_ts e_fp e_lab e_str e_val w (T : list lstate) (src : lstate -> row) (out : lstate -> lstate) (keep : lstate -> bool),
       flat5 sel (cols5 swap e_ts e_fp e_lab e_str e_val) w [] None
       /\ src_rows sel = Some (map src T)
       /\ (forall t, List.In t T -> colsem e_ts e_fp e_lab e_str e_val (src t) (out t))
-      /\ (forall t, List.In t T -> lookup "string" (src t) = Some (VStr (x_line (fst (out t)))))
-      /\ wsem w T (fun t => (st_row swap (out t) ++ src t)%list) keep
+      /\ (m <> MFmt -> forall t, List.In t T -> lookup "string" (src t) = Some (VStr (x_line (fst (out t)))))
+      /\ wsem w T src out keep
       /\ Permutation (map out (filter keep T)) (live done)
-      /\ (m <> MFilt -> w = None)
+      /\ (m <> MFilt -> m <> MFmt -> w = None)
       /\ (m = MFresh \/ m = MDropped ->
           forall t, List.In t T -> forall b, alias_env b -> EV e_fp [(b ++ src t)%list] = Some (VInt (p_fp (snd (out t)))))
-      /\ (swap = false -> forall t, List.In t T -> lookup "samples.string" (src t) = Some (VStr (x_line (fst (out t))))).
+      /\ (m <> MFmt -> swap = false -> forall t, List.In t T -> lookup "samples.string" (src t) = Some (VStr (x_line (fst (out t)))))
+      (* the string body does not read the aliases (a plain column) until a line_format replaces it *)
+      /\ (m <> MFmt -> forall t, List.In t T -> forall b, alias_env b -> EV e_str [(b ++ src t)%list] = Some (VStr (x_line (fst (out t)))))
+      (* fresh or filtered: the labels body is a plain column too, and the source row carries the current labels as `labels` *)
+      /\ (m = MFresh \/ m = MFilt -> forall t, List.In t T ->
+            lookup "labels" (src t) = Some (VMap (p_labels (snd (out t))))
+            /\ forall b, alias_env b -> EV e_lab [(b ++ src t)%list] = Some (VMap (p_labels (snd (out t))))).
+
+  Ltac sinv_open H :=
+    destruct H as [e_ts [e_fp [e_lab [e_str [e_val [w [T [src [out [keep
+                  [Hf [Hsrc [Hcs [Hstr [Hw [Hperm [Hm [Hfree [Hss [Hsf Hlf]]]]]]]]]]]]]]]]]]]].
+  Ltac sinv_split := split; [|split; [|split; [|split; [|split; [|split; [|split; [|split; [|split; [|split]]]]]]]]].
 
   Lemma flat5_set_cols q cols w ords lim cols' : flat5 q cols w ords lim -> flat5 (set_cols cols' q) cols' w ords lim.
   Proof. intros [F1 F2 F3 F4 F5 F6 F7 F8 F9 F10]. constructor; cbn; assumption || reflexivity. Qed.
@@ -658,6 +745,9 @@ Section BRIDGE2.
   Lemma flat5_set_limit q cols w ords lim l' : flat5 q cols w ords lim -> flat5 (set_limit l' q) cols w ords l'.
   Proof. intros [F1 F2 F3 F4 F5 F6 F7 F8 F9 F10]. constructor; cbn; assumption || reflexivity. Qed.
 
+  Lemma parsed_not_fmt m : (m = MFresh \/ m = MParsed) -> m <> MFmt /\ m <> MFilt.
+  Proof. intros [->| ->]; split; discriminate. Qed.
+
   Definition json_patch (ps : list parser_param) (paths : list (list string)) (req : select) : select :=
     let req1 := set_cols (patch_col (s_cols req) "labels"
                   (fun object => Fn "mapUpdate" [object; sql_json_parser (map pp_label ps) paths])) req in
@@ -666,11 +756,11 @@ Section BRIDGE2.
   Lemma sinv_json sel done m swap ps paths : sinv sel done m swap -> (m = MFresh \/ m = MParsed) ->
     all_paths ps = Some paths -> sinv (json_patch ps paths sel) (done ++ [PParser PJson ps]) MParsed swap.
   Proof.
-    intros [e_ts [e_fp [e_lab [e_str [e_val [w [T [src [out [keep [Hf [Hsrc [Hcs [Hstr [Hw [Hperm [Hm [_ Hss]]]]]]]]]]]]]]]]]] Hmode Hp.
-    assert (Ew : w = None) by (apply Hm; destruct Hmode as [->| ->]; discriminate). subst w.
+    intros H Hmode Hp. sinv_open H. destruct (parsed_not_fmt m Hmode) as [Hnf Hnfl].
+    assert (Ew : w = None) by (now apply Hm). subst w.
     exists e_ts, fp_of_labels, (Fn "mapUpdate" [e_lab; sql_json_parser (map pp_label ps) paths]), e_str, e_val, None,
            T, src, (fun t => json_state ps paths (out t)), keep.
-    split; [|split; [|split; [|split; [|split; [|split; [|split; [|split]]]]]]].
+    sinv_split.
     - unfold json_patch. cbn [s_cols set_cols]. rewrite (f_cols _ _ _ _ _ Hf).
       replace (patch_col (patch_col (cols5 swap e_ts e_fp e_lab e_str e_val) "labels"
                  (fun object => Fn "mapUpdate" [object; sql_json_parser (map pp_label ps) paths])) "fingerprint" (fun _ => fp_of_labels))
@@ -678,13 +768,15 @@ Section BRIDGE2.
         by (destruct swap; reflexivity).
       eapply flat5_set_cols. eapply flat5_set_cols. exact Hf.
     - exact Hsrc.
-    - intros t Ht. apply (colsem_json e_ts e_fp e_lab e_str e_val); [now apply Hcs|now apply Hstr|exact Hp].
-    - intros t Ht. cbn [json_state fst]. now apply Hstr.
+    - intros t Ht. apply (colsem_json e_ts e_fp e_lab e_str e_val); [now apply Hcs|now apply Hstr|now apply Hsf|exact Hp].
+    - intros _ t Ht. cbn [json_state fst]. now apply Hstr.
     - exact Hw.
     - rewrite (live_json done ps paths Hp), <- (map_map out (json_state ps paths)). now apply Permutation_map.
     - reflexivity.
     - intros [H|H]; discriminate.
-    - intros Hs t Ht. cbn [json_state fst]. now apply Hss.
+    - intros _ Hs t Ht. cbn [json_state fst]. now apply Hss.
+    - intros _ t Ht. cbn [json_state fst]. now apply Hsf.
+    - intros [H|H]; discriminate.
   Qed.
 
   Definition regexp_patch (ps : list parser_param) (req : select) : select :=
@@ -695,11 +787,11 @@ Section BRIDGE2.
   Lemma sinv_regexp sel done m swap ps : sinv sel done m swap -> (m = MFresh \/ m = MParsed) ->
     regexp_oracle ps -> sinv (regexp_patch ps sel) (done ++ [PParser PRegexp ps]) MParsed swap.
   Proof.
-    intros [e_ts [e_fp [e_lab [e_str [e_val [w [T [src [out [keep [Hf [Hsrc [Hcs [Hstr [Hw [Hperm [Hm [_ Hss]]]]]]]]]]]]]]]]]] Hmode Ho.
-    assert (Ew : w = None) by (apply Hm; destruct Hmode as [->| ->]; discriminate). subst w.
+    intros H Hmode Ho. sinv_open H. destruct (parsed_not_fmt m Hmode) as [Hnf Hnfl].
+    assert (Ew : w = None) by (now apply Hm). subst w.
     exists e_ts, fp_of_labels, (Fn "mapUpdate" [e_lab; regex_map (re_names ps) (re_sent ps)]), e_str, e_val, None,
            T, src, (fun t => regexp_state ps (out t)), keep.
-    split; [|split; [|split; [|split; [|split; [|split; [|split; [|split]]]]]]].
+    sinv_split.
     - unfold regexp_patch. cbn [s_cols set_cols]. rewrite (f_cols _ _ _ _ _ Hf).
       replace (patch_col (patch_col (cols5 swap e_ts e_fp e_lab e_str e_val) "labels"
                  (fun object => Fn "mapUpdate" [object; regex_map (re_names ps) (re_sent ps)])) "fingerprint" (fun _ => fp_of_labels))
@@ -707,13 +799,15 @@ Section BRIDGE2.
         by (destruct swap; reflexivity).
       eapply flat5_set_cols. eapply flat5_set_cols. exact Hf.
     - exact Hsrc.
-    - intros t Ht. apply (colsem_regexp e_ts e_fp e_lab e_str e_val); [now apply Hcs|now apply Hstr|exact Ho].
-    - intros t Ht. cbn [regexp_state fst]. now apply Hstr.
+    - intros t Ht. apply (colsem_regexp e_ts e_fp e_lab e_str e_val); [now apply Hcs|now apply Hstr|now apply Hsf|exact Ho].
+    - intros _ t Ht. cbn [regexp_state fst]. now apply Hstr.
     - exact Hw.
     - rewrite (live_regexp done ps Ho), <- (map_map out (regexp_state ps)). now apply Permutation_map.
     - reflexivity.
     - intros [H|H]; discriminate.
-    - intros Hs t Ht. cbn [regexp_state fst]. now apply Hss.
+    - intros _ Hs t Ht. cbn [regexp_state fst]. now apply Hss.
+    - intros _ t Ht. cbn [regexp_state fst]. now apply Hsf.
+    - intros [H|H]; discriminate.
   Qed.
 
   Definition drop_patch (ps : list (string * option string)) (req : select) : select :=
@@ -723,23 +817,52 @@ Section BRIDGE2.
   Lemma sinv_drop sel done m swap ps : sinv sel done m swap -> (m = MFresh \/ m = MParsed) ->
     sinv (drop_patch ps sel) (done ++ [PDrop ps]) MParsed swap.
   Proof.
-    intros [e_ts [e_fp [e_lab [e_str [e_val [w [T [src [out [keep [Hf [Hsrc [Hcs [Hstr [Hw [Hperm [Hm [_ Hss]]]]]]]]]]]]]]]]]] Hmode.
-    assert (Ew : w = None) by (apply Hm; destruct Hmode as [->| ->]; discriminate). subst w.
+    intros H Hmode. sinv_open H. destruct (parsed_not_fmt m Hmode) as [Hnf Hnfl].
+    assert (Ew : w = None) by (now apply Hm). subst w.
     exists e_ts, fp_of_labels, (map_drop_filter e_lab ps), e_str, e_val, None, T, src, (fun t => drop_state ps (out t)), keep.
-    split; [|split; [|split; [|split; [|split; [|split; [|split; [|split]]]]]]].
+    sinv_split.
     - unfold drop_patch. cbn [s_cols set_cols]. rewrite (f_cols _ _ _ _ _ Hf).
       replace (patch_col (patch_col (cols5 swap e_ts e_fp e_lab e_str e_val) "labels" (fun l => map_drop_filter l ps))
                  "fingerprint" (fun _ => fp_of_labels))
         with (cols5 swap e_ts fp_of_labels (map_drop_filter e_lab ps) e_str e_val) by (destruct swap; reflexivity).
       eapply flat5_set_cols. eapply flat5_set_cols. exact Hf.
     - exact Hsrc.
-    - intros t Ht. apply (colsem_drop e_ts e_fp e_lab e_str e_val). now apply Hcs.
-    - intros t Ht. cbn [drop_state fst]. now apply Hstr.
+    - intros t Ht. apply (colsem_drop e_ts e_fp e_lab e_str e_val); [now apply Hcs|now apply Hsf].
+    - intros _ t Ht. cbn [drop_state fst]. now apply Hstr.
     - exact Hw.
     - rewrite (live_drop done ps), <- (map_map out (drop_state ps)). now apply Permutation_map.
     - reflexivity.
     - intros [H|H]; discriminate.
-    - intros Hs t Ht. cbn [drop_state fst]. now apply Hss.
+    - intros _ Hs t Ht. cbn [drop_state fst]. now apply Hss.
+    - intros _ t Ht. cbn [drop_state fst]. now apply Hsf.
+    - intros [H|H]; discriminate.
+  Qed.
+
+  (* | line_format "tmpl": the string body becomes the format() call; the select is closed behind it *)
+  Definition lfmt_patch (ns : list LogqlTemplate.tnode) (req : select) : select :=
+    set_cols (patch_col (s_cols req) "string" (fun _ => LogqlTemplate.tpl_sql ns)) req.
+  Lemma sinv_lfmt sel done m swap tm ns : sinv sel done m swap -> (m = MFresh \/ m = MFilt) ->
+    LogqlTemplate.tpl_parse tm = LogqlTemplate.TOk ns -> tpl_total ns ->
+    sinv (lfmt_patch ns sel) (done ++ [PLineFormat tm]) MFmt swap.
+  Proof.
+    intros H Hmode Hp Htot. sinv_open H.
+    exists e_ts, e_fp, e_lab, (LogqlTemplate.tpl_sql ns), e_val, w, T, src, (fun t => lfmt_state ns (out t)), keep.
+    sinv_split.
+    - unfold lfmt_patch. cbn [s_cols set_cols]. rewrite (f_cols _ _ _ _ _ Hf).
+      replace (patch_col (cols5 swap e_ts e_fp e_lab e_str e_val) "string" (fun _ => LogqlTemplate.tpl_sql ns))
+        with (cols5 swap e_ts e_fp e_lab (LogqlTemplate.tpl_sql ns) e_val) by (destruct swap; reflexivity).
+      eapply flat5_set_cols. exact Hf.
+    - exact Hsrc.
+    - intros t Ht. destruct (Hlf Hmode t Ht) as [Hl1 Hl2].
+      apply (colsem_lfmt e_ts e_fp e_lab e_str e_val); [now apply Hcs|exact Htot|exact Hl1|exact Hl2].
+    - intros Hn. now contradiction Hn.
+    - apply (wsem_labels_ext w T src out); [reflexivity|exact Hw].
+    - rewrite (live_lfmt done tm ns Hp Htot), <- (map_map out (lfmt_state ns)). now apply Permutation_map.
+    - intros _ Hn. now contradiction Hn.
+    - intros [H|H]; discriminate.
+    - intros Hn. now contradiction Hn.
+    - intros Hn. now contradiction Hn.
+    - intros [H|H]; discriminate.
   Qed.
 
   Lemma perm_filter_step (T : list lstate) out keep (ok : lstate -> bool) l :
@@ -751,26 +874,29 @@ Section BRIDGE2.
   Qed.
 
   Lemma sinv_filter sel done m cond (ok : lstate -> bool) s :
-    sinv sel done m false ->
-    (forall T src out, (forall t, List.In t T -> lookup "samples.string" (src t) = Some (VStr (x_line (fst (out t))))
-                                              /\ lookup "string" (src t) = Some (VStr (x_line (fst (out t))))) ->
-       forall t : lstate, List.In t T -> EV cond [(st_row false (out t) ++ src t)%list] = Some (vbool (ok (out t)))) ->
+    sinv sel done m false -> (m = MFresh \/ m = MFilt) ->
+    (forall T src out, (forall t, List.In t T -> lookup "samples.string" (src t) = Some (VStr (x_line (fst (out t))))) ->
+       forall t : lstate, List.In t T -> forall b, alias_env b -> lookup "labels" b = Some (VMap (p_labels (snd (out t)))) ->
+         EV cond [(b ++ src t)%list] = Some (vbool (ok (out t)))) ->
     live (done ++ [s]) = filter ok (live done) ->
     sinv (and_where [cond] sel) (done ++ [s]) MFilt false.
   Proof.
-    intros [e_ts [e_fp [e_lab [e_str [e_val [w [T [src [out [keep [Hf [Hsrc [Hcs [Hstr [Hw [Hperm [Hm [Hfree Hss]]]]]]]]]]]]]]]]]] Hcond Hlive.
+    intros H Hmode Hcond Hlive. sinv_open H.
+    assert (Hnf : m <> MFmt) by (destruct Hmode as [->| ->]; discriminate).
     exists e_ts, e_fp, e_lab, e_str, e_val, (and_into w [cond]), T, src, out, (fun t => keep t && ok (out t)).
-    split; [|split; [|split; [|split; [|split; [|split; [|split; [|split]]]]]]].
+    sinv_split.
     - unfold and_where. rewrite (f_where _ _ _ _ _ Hf). eapply flat5_set_where. exact Hf.
     - exact Hsrc.
     - exact Hcs.
-    - exact Hstr.
-    - apply (wsem_and w T _ keep cond (fun t => ok (out t)) Hw). apply (Hcond T src out).
-      intros t Ht. split; [now apply Hss|now apply Hstr].
+    - intros _. now apply Hstr.
+    - apply (wsem_and w T src out keep cond (fun t => ok (out t)) Hw). apply (Hcond T src out).
+      intros t Ht. now apply Hss.
     - rewrite Hlive. now apply perm_filter_step.
     - intros H. congruence.
     - intros [H|H]; discriminate.
-    - exact Hss.
+    - intros _. now apply Hss.
+    - intros _. now apply Hsf.
+    - intros _ t Ht. now apply Hlf.
   Qed.
 
   (* MainRenew: the open select is closed and read as `samples` by a fresh one *)
@@ -793,10 +919,10 @@ Section BRIDGE2.
   Lemma sinv_closed sel done m swap : sinv sel done m swap ->
     exists U, ES sel = Some (map (st_row swap) U) /\ Permutation U (live done).
   Proof.
-    intros [e_ts [e_fp [e_lab [e_str [e_val [w [T [src [out [keep [Hf [Hsrc [Hcs [Hstr [Hw [Hperm _]]]]]]]]]]]]]]]].
+    intros H. sinv_open H.
     exists (map out (filter keep T)). split; [|exact Hperm].
     apply (es_five_plain sel swap e_ts e_fp e_lab e_str e_val w T src out keep Hf Hsrc Hcs).
-    apply (wsem_cond w T _ keep Hw).
+    apply (wsem_cond w T src out keep swap Hw).
   Qed.
 
   Lemma sinv_renew a sel done m swap : sinv sel done m swap -> sinv (renew_select a sel) done MFresh false.
@@ -804,18 +930,21 @@ Section BRIDGE2.
     intros H. destruct (sinv_closed sel done m swap H) as [U [HU Hperm]].
     exists (Id "samples.timestamp_ns"), (Id "samples.fingerprint"), (Id "samples.labels"), (Id "samples.string"), (Id "samples.value"),
            None, U, (samples_env swap), (fun t => t), (fun _ => true).
-    split; [|split; [|split; [|split; [|split; [|split; [|split; [|split]]]]]]].
+    sinv_split.
     - constructor; reflexivity.
     - unfold src_rows, renew_select. cbn [s_joins s_from set_cols set_from with_ add_withs set_withs empty_select fold_left].
       change (ET (Col (WRef a sel) "samples")) with (option_map (qualify "samples") (ES sel)).
       rewrite HU. cbn [option_map]. rewrite qualify_map. reflexivity.
     - intros t Ht. unfold samples_env. constructor; intros b Hb; intros; rewrite ev_id_src by (assumption || reflexivity);
         destruct swap; reflexivity.
-    - intros t Ht. unfold samples_env. destruct swap; reflexivity.
+    - intros _ t Ht. unfold samples_env. destruct swap; reflexivity.
     - intros t Ht. reflexivity.
     - rewrite filter_true, map_id. exact Hperm.
     - reflexivity.
     - intros _ t Ht b Hb. rewrite ev_id_src by (assumption || reflexivity). unfold samples_env. destruct swap; reflexivity.
-    - intros _ t Ht. unfold samples_env. destruct swap; reflexivity.
+    - intros _ _ t Ht. unfold samples_env. destruct swap; reflexivity.
+    - intros _ t Ht b Hb. rewrite ev_id_src by (assumption || reflexivity). unfold samples_env. destruct swap; reflexivity.
+    - intros _ t Ht. split; [unfold samples_env; destruct swap; reflexivity|].
+      intros b Hb. rewrite ev_id_src by (assumption || reflexivity). unfold samples_env. destruct swap; reflexivity.
   Qed.
 End BRIDGE2.
